@@ -34,8 +34,19 @@ Oracle    (pure-Python reference, math.fsum; least squares by SVD - independent 
             controls): the regression coefficient is not unique and the statement does not say which one to take, so only
             the consequences that hold for every admissible choice are asserted: the adjusted rows are Y - b(X - price_X) for
             SOME b, price()/mc_stddev() are the mean / standard error of those rows, variance(adjusted) <= variance(raw)
-            + slack, price() = raw mean when mean(X) = price_X. (The library takes b = 0 there; that passes.)
+            + slack, price() = raw mean when mean(X) = price_X. (b = 0, the library's documented fall-back, passes; so does
+            the minimum-norm solution of the normal equations.)
           * in between: counted as oracle_inconclusive (does not occur on these alphabets).
+
+Findings on the tree this module was built against (reproducers and proposed patches are in the builder's report):
+  ...:mc_stddev:...:divided-by-sqrt-of-N-times-dimension:dim2|dim3        tools.mc_stddev divides by sqrt(array size)
+  C07:engine:price-raises:IndexError:1r|2r:dim2|dim3 and
+  ...:cv:adjustment:...:real-given-prices-indexed-by-payoff-component:2r   compute_coefficients reads real given prices with
+                                                                           the payoff-component index: the 2nd control is
+                                                                           centred on the 1st control's price / IndexError
+  ...:cv:adjustment:...:controls-dropped-because-two-controls-are-uncorrelated:2u   the 1e-12 test is on ALL entries of Sigma_X
+  ...:cv:variance:adjusted-sample-variance-exceeds-raw:rank-deficient:*    inverse of a numerically singular Sigma_X (controls
+                                                                           collinear on the sample) when inv() does not raise
 
 Outside the statement / alphabet (not asserted): mc_stddev for N = 1 (the unbiased standard deviation does not exist);
 which coefficient is taken when the controls' sample covariance is singular; controls whose variance is below the
@@ -61,7 +72,7 @@ RULE = (
     "complete product of the stated lattice (N, alphabet, payoff dimension, control kind, notional, discount factor, spot "
     "statistics, representation) x every sequence of terminal values over the alphabet; one evaluation = one complete run of "
     "the real Engine.price on a fresh engine compared with the pure-Python reference; a case (block of consecutive "
-    "sequences of one configuration) is non-trivial when at least one of its runs had two different payoff rows; "
+    "sequences of one configuration) is non-trivial when at least one of its runs had two different terminal values; "
     "distinct = distinct case dict"
 )
 ASSUMPTIONS = [
@@ -466,12 +477,12 @@ def check_case(sh, case):
             if _obs_fingerprint(again) != _obs_fingerprint(obs):
                 sh.violation("NONDETERMINISM", f"two runs of {sh.case} differ", None)
             sh.count("determinism_rechecks")
-            if case["lo"] == 0 and n in (3, 5) and case["payoff"] == "v2" and case["notional"] == 2.5 and case["df"] == 0.9:
-                last = U.decode(case["hi"] - 1, n, len(letters_all))
-                sh.sample({"case": sh.case, "letters_first": letters, "letters_last": [letters_all[k] for k in last],
-                           "first_run": {"raw_price": obs.get("raw_price"), "price": obs.get("price"),
-                                         "raw_mc_stddev": obs.get("raw_se"), "mc_stddev": obs.get("se"),
-                                         "exception": repr(obs["exc"]) if obs["exc"] else None}})
+        if idx == 5 and n in (3, 5) and case["payoff"] == "v2" and case["notional"] == 2.5 and case["df"] == 0.9:
+            # a written-out example for the evidence: the sequence (..., 0.5, 1, 1.5) of this configuration
+            sh.sample({"case": sh.case, "letters": letters,
+                       "observed": {"raw_price": obs.get("raw_price"), "price": obs.get("price"),
+                                    "raw_mc_stddev": obs.get("raw_se"), "mc_stddev": obs.get("se"),
+                                    "exception": repr(obs["exc"]) if obs["exc"] else None}})
     sh.case = block
     if nontrivial:
         sh.nontriv(block)
